@@ -88,6 +88,11 @@ def gen_collect(rng: random.Random, i: int) -> dict[str, Any]:
     if m < 0.7:
         vals = [v for v in UNIQ_SAFE]
         return {"mode": "hashes", "x": g_hashes(rng, keys=COLLECT_KEYS, values=vals), "k": k, "pseed": ps}
+    if rng.random() < 0.1:
+        big = g_int(rng, big=1.0)
+        xs = [{k: big}, {k: -big + rng.randint(-200, 200)}, {k: rng.choice((1.0, 0.5, "2.5", 1, 7))}, {}]
+        rng.shuffle(xs)
+        return {"mode": "numhashes", "x": xs, "k": k, "pseed": ps}
     vals = [g_int(rng) for _ in range(2)] + [g_float(rng), g_numstr(rng), 1, 2, None, 0]
     return {"mode": "numhashes", "x": g_hashes(rng, keys=COLLECT_KEYS, values=vals), "k": k, "pseed": ps}
 
@@ -151,9 +156,10 @@ def _sum_q(vals: list[Any]) -> str:
             cl.add("non-number")
     if "non-numeric-string" in cl:
         return "non-numeric-string"
-    if "float" in cl and any(is_num(to_number(v)) and isinstance(to_number(v), int) and abs(to_number(v)) >= 10**28
-                             for v in vals if not isinstance(v, bool)):
-        return "float-with-int-over-28-digits"
+    nums = [to_number(v) for v in vals if not isinstance(v, bool)]
+    if any(isinstance(n, float) for n in nums) and any(isinstance(n, int) and abs(n) >= 10**27 for n in nums):
+        # one mechanism whatever the spelling of the operands
+        return "float-with-int-of-28-or-more-digits"
     if len(cl) > 1:
         cl.discard("int")
     return "+".join(sorted(cl))
@@ -262,7 +268,7 @@ def case_collect(R: Runner, inp: dict[str, Any]) -> None:
     else:
         vals = [nilk(e) for e in E]
         if _sum_domain_ok(vals) and not any(isinstance(v, bool) for v in vals):
-            q = _sum_q(vals) + ":by-property"
+            q = _sum_q(vals)
             ss = R.both("sum", x, k, cls=q)
             sl = R.T("sum", f"sum: i => {lam}", cls=q, x=x)
             _sum_check(R, "exact-sum-of-property", ss, vals, q)
